@@ -793,6 +793,132 @@ pub fn check_order(b: &OrderBuilt) -> Result<(), (String, String)> {
     }
 }
 
+
+// ---------------------------------------------------------------------------------------------
+// C22, second campaign: the order a BuildPlan built from manifests on disk actually uses
+
+#[derive(Debug, Clone)]
+pub struct WsCase {
+    pub n: usize,
+    /// rank permutation seed, edges (from, to as fractions; oriented from lower to higher rank = acyclic), member flags
+    pub perm_seed: Vec<u16>,
+    pub edges: Vec<(u16, u16)>,
+    pub members: Vec<bool>,
+    pub back_edge: Option<(u16, u16)>,
+}
+fn ws_case() -> impl Strategy<Value = WsCase> {
+    (2usize..9).prop_flat_map(|n| {
+        (Just(n), prop::collection::vec(any::<u16>(), n), prop::collection::vec((any::<u16>(), any::<u16>()), 1..(2 * n + 1)), prop::collection::vec(prop::bool::weighted(0.5), n), prop::option::weighted(0.15, (any::<u16>(), any::<u16>())))
+            .prop_map(|(n, perm_seed, edges, members, back_edge)| WsCase { n, perm_seed, edges, members, back_edge })
+    })
+}
+static WS_COUNTER: std::sync::atomic::AtomicU64 = std::sync::atomic::AtomicU64::new(0);
+
+fn check_workspace(c: &WsCase, rep: &Report) -> Result<(), (String, String)> {
+    let n = c.n;
+    let mut rank: Vec<usize> = (0..n).collect();
+    rank.sort_by_key(|i| (c.perm_seed[*i], *i));
+    let mut pos_of = vec![0; n];
+    for (r, i) in rank.iter().enumerate() {
+        pos_of[*i] = r;
+    }
+    // a depends on b: a has the lower rank position (so dependencies point "forward" and the graph is acyclic)
+    let mut deps: Vec<std::collections::BTreeSet<usize>> = vec![Default::default(); n];
+    for (x, y) in &c.edges {
+        let (a, b) = (idx(*x, n), idx(*y, n));
+        if a == b {
+            continue;
+        }
+        let (a, b) = if pos_of[a] < pos_of[b] { (a, b) } else { (b, a) };
+        deps[a].insert(b);
+    }
+    let mut cyclic = false;
+    if let Some((x, y)) = c.back_edge {
+        let (a, b) = (idx(x, n), idx(y, n));
+        if a != b {
+            // an edge against the rank closes a cycle only if a path exists the other way; decide with a DFS below
+            let (a, b) = if pos_of[a] < pos_of[b] { (b, a) } else { (a, b) };
+            deps[a].insert(b);
+        }
+    }
+    let mut members: Vec<usize> = (0..n).filter(|i| c.members[*i]).collect();
+    if members.is_empty() {
+        members.push(rank[0]);
+    }
+    // reachable set and cycle detection (own DFS)
+    let mut state = vec![0u8; n];
+    fn dfs(u: usize, deps: &[std::collections::BTreeSet<usize>], state: &mut [u8], cyc: &mut bool) {
+        state[u] = 1;
+        for v in &deps[u] {
+            if state[*v] == 1 {
+                *cyc = true;
+            } else if state[*v] == 0 {
+                dfs(*v, deps, state, cyc);
+            }
+        }
+        state[u] = 2;
+    }
+    for m in &members {
+        if state[*m] == 0 {
+            dfs(*m, &deps, &mut state, &mut cyclic);
+        }
+    }
+    let reachable: std::collections::BTreeSet<String> = (0..n).filter(|i| state[*i] == 2).map(|i| format!("p{i}")).collect();
+    // write the workspace
+    let dir = scratch_root().join(format!("c22ws-{}-{}", std::process::id(), WS_COUNTER.fetch_add(1, std::sync::atomic::Ordering::Relaxed)));
+    let _ = std::fs::remove_dir_all(&dir);
+    for i in 0..n {
+        let p = dir.join(format!("p{i}"));
+        std::fs::create_dir_all(p.join("src")).map_err(|e| ("harness-io".to_string(), e.to_string()))?;
+        let mut m = format!("[project]\nauthors = [\"vp\"]\nentry = \"lib.sw\"\nlicense = \"Apache-2.0\"\nname = \"p{i}\"\nimplicit-std = false\n\n[dependencies]\n");
+        for d in &deps[i] {
+            m.push_str(&format!("p{d} = {{ path = \"../p{d}\" }}\n"));
+        }
+        std::fs::write(p.join("Forc.toml"), m).map_err(|e| ("harness-io".to_string(), e.to_string()))?;
+        std::fs::write(p.join("src/lib.sw"), "library;\n").map_err(|e| ("harness-io".to_string(), e.to_string()))?;
+    }
+    let ws = format!("[workspace]\nmembers = [{}]\n", members.iter().map(|m| format!("\"p{m}\"")).collect::<Vec<_>>().join(", "));
+    std::fs::write(dir.join("Forc.toml"), ws).map_err(|e| ("harness-io".to_string(), e.to_string()))?;
+    let res = catch(|| forc_pkg::BuildPlan::from_pkg_opts(&forc_pkg::PkgOpts { path: Some(dir.display().to_string()), offline: true, terse: true, ..Default::default() }));
+    let _ = std::fs::remove_dir_all(&dir);
+    rep.eval();
+    rep.class(if cyclic { "workspace:cyclic" } else { "workspace:acyclic" });
+    let describe = || format!("members {:?}, dependencies {:?}", members, deps.iter().enumerate().map(|(i, d)| (i, d.iter().cloned().collect::<Vec<_>>())).filter(|(_, d)| !d.is_empty()).collect::<Vec<_>>());
+    match res {
+        Err(p) => Err(("workspace:plan-panicked".into(), format!("BuildPlan::from_pkg_opts panicked at {}: {} ({})", p.location, p.message, describe()))),
+        Ok(Err(e)) => {
+            if cyclic {
+                Ok(())
+            } else {
+                Err(("workspace:acyclic-plan-rejected".into(), format!("acyclic workspace rejected: {e:#} ({})", describe())))
+            }
+        }
+        Ok(Ok(plan)) => {
+            if cyclic {
+                return Err(("workspace:cyclic-plan-accepted".into(), format!("a workspace with a dependency cycle got a build order ({})", describe())));
+            }
+            let g = plan.graph();
+            let order = plan.compilation_order();
+            let names: Vec<String> = order.iter().map(|ix| g[*ix].name.clone()).collect();
+            let set: std::collections::BTreeSet<String> = names.iter().cloned().collect();
+            if set.len() != names.len() || set != reachable {
+                return Err(("workspace:order-not-the-package-set".into(), format!("order {:?} but the packages reachable from the members are {:?} ({})", names, reachable, describe())));
+            }
+            let pos: std::collections::HashMap<_, _> = order.iter().enumerate().map(|(i, ix)| (*ix, i)).collect();
+            for e in g.edge_indices() {
+                let (a, b) = g.edge_endpoints(e).unwrap();
+                if pos[&b] >= pos[&a] {
+                    return Err(("workspace:dependency-after-dependent".into(), format!("`{}` depends on `{}` but the order is {:?} ({})", g[a].name, g[b].name, names, describe())));
+                }
+            }
+            if n >= 4 && g.edge_count() >= 3 && members.len() < reachable.len() {
+                rep.nontrivial(hash64(format!("ws{:?}", c).as_bytes()));
+            }
+            Ok(())
+        }
+    }
+}
+
 pub fn run_c22(ctx: &Ctx) {
     let rep = Report::new(
         ctx,
@@ -818,6 +944,17 @@ pub fn run_c22(ctx: &Ctx) {
             Err((sig, summary)) => Err(format!("{sig}\u{1}{summary}")),
         }
     });
+    // second campaign: workspaces on disk through BuildPlan::from_pkg_opts (the order forc really builds in)
+    rep.assume("second campaign: generated workspaces of 2-8 library packages (random member subset, path dependencies forming a DAG, 15% with one edge against the rank) are written to scratch and planned offline through BuildPlan::from_pkg_opts; the plan's own graph and compilation_order are judged");
+    let isolated_home = scratch_root().join(format!("c22home-{}", std::process::id()));
+    let _ = std::fs::create_dir_all(&isolated_home);
+    std::env::set_var("HOME", &isolated_home);
+    let out2 = run_prop(ctx, 222, ctx.cases(1200, 40_000), ws_case, |c| check_workspace(c, &rep).map_err(|(sig, summary)| format!("{sig}\u{1}{summary}")));
+    let _ = std::fs::remove_dir_all(&isolated_home);
+    if let Some((c, reason)) = out2.failure {
+        let (sig, summary) = reason.split_once('\u{1}').map(|(a, b)| (a.to_string(), b.to_string())).unwrap_or((reason.clone(), reason.clone()));
+        rep.violation(Violation { signature: sig, summary, replay: json!({"workspace_case": format!("{:?}", c)}) });
+    }
     if let Some((c, reason)) = out.failure {
         let (sig, summary) = reason.split_once('\u{1}').map(|(a, b)| (a.to_string(), b.to_string())).unwrap_or((reason.clone(), reason.clone()));
         let b = build_order(&c);
